@@ -109,8 +109,8 @@ def prepare(repo, tier, crate):
     fp = hashlib.sha256((os.path.realpath(repo) + tier).encode()).hexdigest()[:10]
     d = os.path.join(CACHE, f'kani-crate-{fp}')
     os.makedirs(os.path.join(d, 'src'), exist_ok=True)
-    for f in os.listdir(os.path.join(VERIF, 'kani', 'src')):
-        shutil.copy(os.path.join(VERIF, 'kani', 'src', f), os.path.join(d, 'src', f))
+    shutil.rmtree(os.path.join(d, 'src'), ignore_errors=True)
+    shutil.copytree(os.path.join(VERIF, 'kani', 'src'), os.path.join(d, 'src'))
     t = open(os.path.join(VERIF, 'kani', 'Cargo.toml.in')).read().replace('@REPO@', os.path.realpath(repo))
     open(os.path.join(d, 'Cargo.toml'), 'w').write(t)
     os.makedirs(os.path.join(d, '.cargo'), exist_ok=True)
@@ -245,6 +245,33 @@ def playback(d, name, timeout=900):
     return vals
 
 
+def latlng_enum(prop, repo, crate):
+    """thorough tier: exhaustive native enumeration of the decode->encode identity over all 2^32 stored values"""
+    r = {'group': 'latlng_enum', 'failures': [], 'undecided': [], 'checks': 0, 'harnesses': [], 'trusted': [], 'wall_s': 0}
+    try:
+        d, _ = prepare(repo, 'thorough', crate)
+    except X.ExtractionError as e:
+        r['undecided'].append(f'latlng enumeration: {e}')
+        return r
+    env = dict(os.environ, CARGO_NET_OFFLINE='true', CARGO_TARGET_DIR=os.path.join(CACHE, 'enum-target'))
+    t0 = time.time()
+    b = subprocess.run(['cargo', 'build', '--release', '--offline', '--quiet', '--bin', 'latlng_enum'], cwd=d, env=env, capture_output=True, text=True)
+    if b.returncode != 0:
+        r['undecided'].append('latlng enumeration does not build: ' + b.stderr[-600:].replace('\n', ' '))
+        return r
+    p = subprocess.run([os.path.join(env['CARGO_TARGET_DIR'], 'release', 'latlng_enum')], capture_output=True, text=True)
+    r['wall_s'] = round(time.time() - t0, 1)
+    out = p.stdout.strip()
+    r['harnesses'].append({'name': 'latlng_enum', 'target': 'header::lat_lng::LatLng::{read_lat_lon, write_lat_lon} (conversion expressions, all 2^32 stored values)',
+                           'checks': 4294967296 if out.startswith('OK') else 0, 'time_s': r['wall_s'], 'complete': True, 'status': 'ok' if out.startswith('OK') else 'failed',
+                           'kind': 'exhaustive enumeration of a finite domain (not proof)'})
+    if not out.startswith('OK'):
+        r['failures'].append({'function': 'header::lat_lng::LatLng::write_lat_lon/read_lat_lon', 'unit': 'enum:latlng', 'kind': 'exhaustive enumeration found a counterexample',
+                              'clause': 'w(r(v)) == v for every stored i32', 'site': out[:300], 'tags': [prop + ':stored_value_survives_rewrite'], 'src': 'src/header/lat_lng.rs',
+                              'rendered': out, 'lost_anchors': [], 'kani_values': None})
+    return r
+
+
 def run_group(group, prop, tier, repo, crate=None):
     r = {'group': group, 'failures': [], 'undecided': [], 'checks': 0, 'harnesses': [], 'trusted': [], 'wall_s': 0}
     if crate is None:
@@ -261,7 +288,7 @@ def run_group(group, prop, tier, repo, crate=None):
     jobs = int(os.environ.get('VERIF_KANI_JOBS', '14'))
     timeout = int(os.environ.get('VERIF_KANI_TIMEOUT', '7200' if tier == 'thorough' else '1500'))
     # result cache: key = harness sources + repo fingerprint + kani version
-    key = hashlib.sha256((''.join(open(os.path.join(d, 'src', f)).read() for f in sorted(os.listdir(os.path.join(d, 'src'))))
+    key = hashlib.sha256((''.join(open(os.path.join(d, 'src', f)).read() for f in sorted(os.listdir(os.path.join(d, 'src'))) if f.endswith('.rs'))
                           + X.repo_fingerprint(repo) + group + tier).encode()).hexdigest()[:24]
     cfile = os.path.join(CACHE, 'kani', f'{group}-{key}.json')
     os.makedirs(os.path.dirname(cfile), exist_ok=True)
